@@ -98,6 +98,23 @@ pub fn run(out: &mut Out, tier: &str, seed: u64) {
         if dbase.clone().ok() != Some(sodium::scalarmult_base(n)) { out.hit("scalarmult.base.differs-from-libsodium", format!("scalar #{}", si), json!({"op":"scalarmult.base","n":hx(n)})); }
         if si < 4 { out.case("scalarmult.base", &[b(n)], &dbase.map(|q| vec![b(&q)]), true); }
     }
+    // box precomputation over the same point table (twist, small-order component, non-canonical and random
+    // encodings): HSalsa20 of the X25519 output, wherever libsodium computes one (it refuses the all-zero secret)
+    {
+        let mut model_budget = 12;
+        for (pi, (name, p)) in points.iter().enumerate() {
+            for n in scalars.iter().skip(pi % 3).step_by(3).take(2) {
+                out.search_evaluations += 1;
+                if let Some(want) = sodium::box_beforenm(p, n) {
+                    let bn = guard_total(|| crypto_box_beforenm(p, n));
+                    if bn.clone().ok() != Some(want) {
+                        out.hit("box.beforenm.differs-from-libsodium.point-table", format!("point {}", name), json!({"op":"box.beforenm","pk":hx(p),"sk":hx(n),"point":name}));
+                    }
+                    if model_budget > 0 && (pi % 5 == 0) { model_budget -= 1; out.case("box.beforenm", &[b(p), b(n)], &bn.map(|k| vec![b(&k)]), true); }
+                }
+            }
+        }
+    }
     // RFC 7748 iterated vector (1 and 1000 iterations; 1 000 000 in thorough)
     {
         let mut k = { let mut x = [0u8; 32]; x[0] = 9; x };
